@@ -415,6 +415,61 @@ def checkDist (cfg : LensCfg α) (h : Hyper α) (isZero : α → Bool) : Except 
     .ok (!(lensDrawBool cfg.dist h.lens isZero || anisoDrawBool cfg.aniso h.kin isZero || db
            || (magType cfg.ltype && !isZero (getD h.source "sigma_sne" 0.0))))
 
+/-! ### the declared populations -/
+
+/-- centre of the lens' `gamma_in` population -/
+def gammaInLoc (cfg : LensDist α) (kw : Dict α) : α :=
+  if cfg.gammaInGauss then getD kw "gamma_in" 1.0 + getD kw "alpha_gamma_in" 0.0 * cfg.prop
+  else getD kw "gamma_in" 1.0
+
+/-- centre of the lens' `log_m2l` population -/
+def m2lLoc (cfg : LensDist α) (kw : Dict α) : α :=
+  getD kw "log_m2l" 1.0 + getD kw "alpha_log_m2l" 0.0 * cfg.prop
+
+/-- spread of the `a_ani` population (proportional to `a_ani` for GAUSSIAN_SCALED) -/
+def aniSigma (cfg : AnisoDist α) (kw : Dict α) (a : α) : α :=
+  if cfg.distribution = "GAUSSIAN_SCALED" then getD kw "a_ani_sigma" 0.0 * a else getD kw "a_ani_sigma" 0.0
+
+/-- the global Gaussian line-of-sight population the lens is assigned to, if any -/
+def losDeclared (cfg : LosCfg) (los : List (Dict α)) : List (α × α) :=
+  if cfg.individual then []
+  else match cfg.globalIdx with
+    | some i =>
+      match los[i]? with
+      | some d =>
+        if cfg.dist = "GAUSSIAN" then
+          match Dict.get? d "mean", Dict.get? d "sigma" with
+          | some m, some sg => [(m, sg)]
+          | _, _ => []
+        else []
+      | none => []
+    | none => []
+
+/-- the populations `draw_lens` may draw from -/
+def lensDeclared (cfg : LensDist α) (kw : Dict α) : List (α × α) :=
+  [(lambdaLens cfg kw, lambdaSigma cfg kw),
+   (gammaInLoc cfg kw, getD kw "gamma_in_sigma" 0.0),
+   (m2lLoc cfg kw, getD kw "log_m2l_sigma" 0.0),
+   (getD kw "gamma_pl_mean" 2.0, getD kw "gamma_pl_sigma" 0.0)]
+
+/-- the populations `draw_anisotropy` may draw from -/
+def anisoDeclared (cfg : AnisoDist α) (kw : Dict α) : List (α × α) :=
+  (match Dict.get? kw "a_ani" with
+   | some a => [(a, aniSigma cfg kw a)]
+   | none => [])
+  ++ (match Dict.get? kw "beta_inf" with
+      | some b => [(b, getD kw "beta_inf_sigma" 0.0)]
+      | none => [])
+
+/-- **the declared populations of a lens**: every `(mean, sigma)` pair a single evaluation of this lens may pass to
+    `np.random.normal`, as a function of the configuration and the hyper-parameters only: the lens' OWN lambda
+    population (the IFU one when so flagged, shifted by the scaling terms), its gamma_in / log_m2l populations, the
+    global slope population, the source-magnitude population, the anisotropy populations and the global Gaussian
+    line-of-sight population the lens is assigned to -/
+def declared (cfg : LensCfg α) (h : Hyper α) : List (α × α) :=
+  lensDeclared cfg.dist h.lens ++ [(getD h.source "mu_sne" 1.0, getD h.source "sigma_sne" 0.0)]
+    ++ anisoDeclared cfg.aniso h.kin ++ losDeclared cfg.los h.los
+
 /-- the evaluations performed by `hyper_param_likelihood`: one when sharp, `numDraws` otherwise -/
 def runDraws {β : Type} (one : M α β) : Nat → M α (List β)
   | 0 => pureM []
